@@ -426,11 +426,16 @@ func (c *RetryClient) Resubscribe(ctx context.Context) {
 		oldSubEstablished := append([]Subscription{}, c.subEstablished...)
 		c.subEstablished = nil
 
+		// Re-establish the old subscriptions before requests which are still pending,
+		// otherwise they would override newer subscribe/unsubscribe requests.
+		pendingRetryQueue := c.retryQueue
+		c.retryQueue = nil
 		if len(oldSubEstablished) > 0 {
 			for _, sub := range oldSubEstablished {
 				c.subscribe(ctx, true, cli, sub)
 			}
 		}
+		c.retryQueue = append(c.retryQueue, pendingRetryQueue...)
 	})
 }
 
